@@ -28,7 +28,7 @@ CLAIMED = {
             "permuted labels), float value columns and a pixel listed twice inside a chunk with the duplicate check off; merge_breakpoints decided at function level.", "4/C06"),
     "C07": ("merge_coolers executed on k arbitrary valid inputs with symbolic buffer: exact per-pixel aggregate (sum/max), nothing missing or extra, "
             "total preserved, schema-valid, mixed input dtypes, signed values (stored zeros, counts that cancel); a result outside the column type (any width/signedness pair) is an error, never a wrapped "
-            "number; acceptance <=> equal bin tables and storage modes.", "4/C07"),
+            "number; acceptance <=> equal bin tables and storage modes; 205 inputs with a mean aggregate (scale case).", "4/C07"),
     "C08": ("coarsen_cooler executed on arbitrary valid inputs (fixed and variable bins, factor and chunk size solver-chosen, batched map): new bin table "
             "and per-block exact aggregates, totals, validity; block sums near the type limit are exact or refused; float counts keep their type with no / "
             "partial dtypes; genomes longer than 2^31 bp; composition (k1 then k2 == k1*k2) and commutation with merging executed end to end at small bounds, plus the div-lemma for unbounded x.", "4/C08"),
